@@ -45,6 +45,8 @@ META = {
             'last/next callers pass day_of_week-1 to the right sibling; constraint membership is half-open and '
             'dates_matching_day equals {d in [start,end): weekday(d)=day} on 392 probes; month ranges and month addition '
             'evaluated for every month (year carried on wrap); '
+            'Time.from_seconds inverts get_time on a grid of clock times; resolve_by_time_constraints never replaces a '
+            'candidate\'s own time of day (both run with the object interpreter); '
             'resolver modules write only into objects made in the same function (never into a parameter or an alias '
             'of one); no dict literal repeats a constant key; '
             'is_overlapping equals interval overlap and collapse is (max start, min end) on an exhaustive small '
